@@ -863,6 +863,11 @@ class Ctx:
         if i < len(self.prefix):
             val = self.prefix[i]
         else:
+            if self.ex.deadline and time.time() > self.ex.deadline + 90:
+                # a single path whose branch queries keep timing out must not outlive the budget by much:
+                # abandon it, reported as TRUNCATED (never as covered)
+                self.ex.truncated = True
+                raise PathAbort()
             rt = self.check(sb)
             if rt == "unsat":
                 rf = "sat?"
